@@ -1,6 +1,6 @@
 (* C12/Props.v — property theorems only (oracle rounds: one price per round, only with a super-majority, no gaps). *)
 From Coq Require Import List String Bool ZArith Lia Sorting.Sorted Sorting.Permutation.
-From Exo Require Import Base.Util Oracle.Model Oracle.Lemmas C12.Proofs C12.Lift C12.Agree C12.NoGap C12.Retention C13.Budget C12.NoGapMulti C12.NoGapClean C12.RetentionRun C12.Final.
+From Exo Require Import Base.Util Oracle.Model Oracle.Lemmas C12.Proofs C12.Lift C12.Agree C12.NoGap C12.Retention C13.Budget C12.NoGapMulti C12.NoGapClean C12.NoGapChain C12.ParamsUpdate C12.RetentionRun C12.PowersConst C12.Final.
 Import ListNotations.
 Local Open Scope Z_scope.
 
@@ -73,11 +73,40 @@ Print Assumptions C12_agreement_ghost_erasure.
 (* a validator repeating its report (new nonce, same det-ID, even another value) is counted once *)
 Example ex_equivocation_counted_once :
   let m := mkMem [(0, 34); (1, 33); (2, 33)] 100 [] [] in
-  let it v := mkPI "7" v 8 100 in
+  let it v := mkPI "7" v 8 100 true in
   let r := run_worker ex_p_agree (new_worker m) []
              [mkCall 0 34 1 [it 100]; mkCall 0 34 2 [it 100]; mkCall 0 34 3 [it 101]; mkCall 1 33 1 [it 101]] in
   agg_aggregate ex_p_agree (fst r) = AggNone /\ List.length (snd r) = 2%nat.
 Proof. vm_compute. split; reflexivity. Qed.
+
+(* Powers are constant during a round - PROVED, not by inspection. jmem is an invariant of all histories: every
+   unsealed worker whose round is open was created with the CURRENT total power and every report in it carries the
+   CURRENT power of its validator (a validator-set change force-seals every open round and drops its worker in the same
+   EndBlock; rounds re-opened there start with a fresh worker). Powers change nowhere else. *)
+Theorem C12_powers_constant_in_round : forall p ops st,
+  jmem p (st_mem st) -> jmem p (st_mem (run p st ops)).
+Proof. intros p ops st. exact (run_j p ops st). Qed.
+Print Assumptions C12_powers_constant_in_round.
+
+Theorem C12_powers_change_only_at_validator_update : forall p now st t st' a ok h,
+  (deliver_tx p now st t = (st', a, ok) ->
+   m_vals (st_mem st') = m_vals (st_mem st) /\ m_total (st_mem st') = m_total (st_mem st)) /\
+  (m_vals (st_mem (end_block p h [] st)) = m_vals (st_mem st) /\ m_total (st_mem (end_block p h [] st)) = m_total (st_mem st)).
+Proof. intros p now st t st' a ok h. split; [exact (deliver_tx_vals p now st t st' a ok) | exact (end_block_vals_unforced p h st)]. Qed.
+Print Assumptions C12_powers_change_only_at_validator_update.
+
+(* hence: a price is final only when validators holding more than A/B of the CURRENT total power have reported -
+   pairwise different validators, each with its CURRENT power *)
+Theorem C12_final_with_current_powers : forall p st0 ops now s x s' m',
+  m_rounds (st_mem st0) = [] -> m_workers (st_mem st0) = [] ->
+  let m := st_mem (run p st0 ops) in
+  create_price p now s m x = (s', m', MsgFinal) ->
+  exists w1 price,
+    agg_aggregate p w1 = AggFinal price /\ exceeds p (w_rpower w1) (m_total m) = true /\
+    w_rpower w1 = zsum (map rp_power (w_reports w1)) /\ NoDup (map rp_val (w_reports w1)) /\
+    Forall (fun rp => zget (m_vals m) (rp_val rp) = Some (rp_power rp)) (w_reports w1).
+Proof. exact final_with_current_powers. Qed.
+Print Assumptions C12_final_with_current_powers.
 
 (* BigIntList.Median: the middle element of the sorted permutation (odd length), the floor mean of the two
    middle elements (even length); it lies within any bounds that hold for all elements *)
@@ -184,13 +213,13 @@ Print Assumptions C12_no_gap_single_feeder_partial.
    each with its own interval / start / end block): the other feeders' rounds, seals, price writes and carried
    prices never disturb it (proved by simulating the projection onto one feeder with the single-feeder machine).
    Still partial in one respect only: transactions carry one message. *)
-Theorem C12_no_gap_partial : forall p f bl b st,
-  mg_hyp p f -> 0 <= b -> b + Z.of_nat (List.length bl) < two64 ->
+Theorem C12_no_gap_partial : forall p f H0 bl b st,
+  mg_hyp p f -> 0 <= b -> b + Z.of_nat (List.length bl) < two64 -> b + Z.of_nat (List.length bl) <= H0 ->
   Forall (fun bk => Forall (fun nt => single_msg (snd nt)) (fst bk)) bl ->
-  mg_inv p f b st ->
+  mgx_inv p f H0 b st ->
   let b' := b + Z.of_nat (List.length bl) in
   let st' := run_blocks p b st bl in
-  mg_inv p f b' st' /\
+  mgx_inv p f H0 b' st' /\
   nogap_state p f b' (next_round_id (get_tp (st_store st') (f_token f))) false = true.
 Proof. exact C12_no_gap_partial_l. Qed.
 Print Assumptions C12_no_gap_partial.
@@ -199,19 +228,85 @@ Print Assumptions C12_no_gap_partial.
    no admitted transaction fails after one of its messages completed a round (clean_blocks checks that along the
    run). Single-message transactions are always clean (single_msg_clean), so this subsumes C12_no_gap_partial; the
    excluded pattern is exactly the one of C12_no_gap_refuted - under valid params it is the ONLY way to lose a round. *)
-Theorem C12_no_gap_clean_histories : forall p f bl b st,
-  mg_hyp p f -> 0 <= b -> b + Z.of_nat (List.length bl) < two64 ->
-  clean_blocks p b st bl -> mg_inv p f b st ->
+Theorem C12_no_gap_clean_histories : forall p f H0 bl b st,
+  mg_hyp p f -> 0 <= b -> b + Z.of_nat (List.length bl) < two64 -> b + Z.of_nat (List.length bl) <= H0 ->
+  clean_blocks p b st bl -> mgx_inv p f H0 b st ->
   let b' := b + Z.of_nat (List.length bl) in
   let st' := run_blocks p b st bl in
-  mg_inv p f b' st' /\
+  mgx_inv p f H0 b' st' /\
   nogap_state p f b' (next_round_id (get_tp (st_store st') (f_token f))) false = true.
 Proof. exact C12_no_gap_clean_histories_l. Qed.
+Print Assumptions C12_no_gap_clean_histories.
+
+(* mgx_inv = mg_inv (store and memory agree on f) + co_ok (every OTHER feeder of f's token is either ended and quiet -
+   no round or a closed one - or starts after the horizon H0 and has no round yet). Feeder ids must be pairwise
+   different (mg_hyp), tokens need not be. With pairwise different tokens co_ok holds trivially: *)
+Theorem C12_co_ok_distinct_tokens : forall p f H0 b m,
+  In f (p_feeders p) -> NoDup (map f_token (p_feeders p)) -> co_ok p f H0 b m.
+Proof. exact co_ok_distinct_l. Qed.
+Print Assumptions C12_co_ok_distinct_tokens.
+
+(* A token handed over from a feeder to its successor (Params.Validate: the successor starts after the predecessor's
+   EndBlock, StartRoundID = predecessor's last round id + 1): over any clean history that crosses the hand-over, the
+   predecessor's numbering holds up to the block before the successor starts, there it IS the successor's initial
+   condition (handover), and the successor's numbering holds from then on - one continuous sequence of round ids for
+   the token, no gap and no repeat at the seam. *)
+Theorem C12_no_gap_successor : forall p f1 f2 bl1 bl2 b st,
+  successor p f1 f2 ->
+  0 <= b -> b + Z.of_nat (List.length bl1) = f_start f2 - 1 ->
+  f_start f2 - 1 + Z.of_nat (List.length bl2) < two64 ->
+  clean_blocks p b st (bl1 ++ bl2) ->
+  mg_inv p f1 b st -> zget (m_rounds (st_mem st)) (f_id f2) = None ->
+  let st1 := run_blocks p b st bl1 in
+  let st2 := run_blocks p b st (bl1 ++ bl2) in
+  let b2 := f_start f2 - 1 + Z.of_nat (List.length bl2) in
+  mg_inv p f1 (f_start f2 - 1) st1 /\ mg_inv p f2 b2 st2 /\
+  nogap_state p f2 b2 (next_round_id (get_tp (st_store st2) (f_token f2))) false = true.
+Proof. exact no_gap_successor. Qed.
 Print Assumptions C12_no_gap_clean_histories.
 
 Theorem C12_single_message_txs_are_clean : forall p now st t, single_msg t -> clean_tx p now st t.
 Proof. exact single_msg_clean. Qed.
 Print Assumptions C12_single_message_txs_are_clean.
+
+(* Updates of the params. The params are an argument of the run; an UpdateParams step replaces p by p' between two blocks.
+   The two kinds of update that MsgUpdateParams / UpdateTokenFeeder allow on a running chain keep mg_hyp and carry the
+   invariant over, so the numbering theorem holds across them:
+     (A) upd_add: a new feeder for a token no feeder serves yet, fresh id, no stale round entry, all scalars unchanged;
+     (B) upd_end: an EndBlock e for a feeder whose EndBlock was 0, e after the current block and after the start block,
+         not inside a window ((e - Start) mod Interval >= MaxNonce), all scalars unchanged - the closed form then uses
+         the new end block.
+   (The new feeder of (A) starts from its own initial condition: upd_add_new; the other feeders do not notice (B):
+   upd_end_inv_other.) Updates of MaxNonce, or of Interval / StartBaseBlock / StartRoundID of a started feeder, are not
+   covered - UpdateTokenFeeder refuses the latter, the former would change every open window. *)
+Theorem C12_no_gap_across_new_feeder : forall p p' g f H0 bl1 bl2 b st,
+  mg_hyp p f -> 0 <= b ->
+  b + Z.of_nat (List.length bl1) + Z.of_nat (List.length bl2) < two64 ->
+  b + Z.of_nat (List.length bl1) + Z.of_nat (List.length bl2) <= H0 ->
+  clean_blocks p b st bl1 -> mgx_inv p f H0 b st ->
+  let b1 := b + Z.of_nat (List.length bl1) in
+  let st1 := run_blocks p b st bl1 in
+  upd_add p p' g (st_mem st1) -> clean_blocks p' b1 st1 bl2 ->
+  let b2 := b1 + Z.of_nat (List.length bl2) in
+  let st2 := run_blocks p' b1 st1 bl2 in
+  mgx_inv p' f H0 b2 st2 /\ nogap_state p' f b2 (next_round_id (get_tp (st_store st2) (f_token f))) false = true.
+Proof. exact no_gap_across_add. Qed.
+Print Assumptions C12_no_gap_across_new_feeder.
+
+Theorem C12_no_gap_across_end_block : forall p p' f e H0 bl1 bl2 b st,
+  mg_hyp p f -> 0 <= b ->
+  b + Z.of_nat (List.length bl1) + Z.of_nat (List.length bl2) < two64 ->
+  b + Z.of_nat (List.length bl1) + Z.of_nat (List.length bl2) <= H0 ->
+  clean_blocks p b st bl1 -> mgx_inv p f H0 b st ->
+  let b1 := b + Z.of_nat (List.length bl1) in
+  let st1 := run_blocks p b st bl1 in
+  upd_end p p' f e b1 -> clean_blocks p' b1 st1 bl2 ->
+  let b2 := b1 + Z.of_nat (List.length bl2) in
+  let st2 := run_blocks p' b1 st1 bl2 in
+  let f' := set_end f e in
+  mgx_inv p' f' H0 b2 st2 /\ nogap_state p' f' b2 (next_round_id (get_tp (st_store st2) (f_token f'))) false = true.
+Proof. exact no_gap_across_end. Qed.
+Print Assumptions C12_no_gap_across_end_block.
 
 (* non-vacuity: three feeders with different intervals / start / end blocks, every one satisfies mg_hyp and the
    initial invariant in the empty state *)
@@ -220,16 +315,33 @@ Definition mg_p : params :=
 Definition mg_st0 : state :=
   mkState (mkStore [(2, mkTP (Some 4) [(3, mkPtr 3 (Some 5) 0 0)])] []) (mkMem [(0, 100); (1, 100); (2, 100)] 300 [] []) 0.
 
-Example ex_mg_hyp : forall f, In f (p_feeders mg_p) -> mg_hyp mg_p f /\ mg_inv mg_p f 19 mg_st0.
+Example ex_mg_hyp : forall f, In f (p_feeders mg_p) -> mg_hyp mg_p f /\ mgx_inv mg_p f 1000 19 mg_st0.
 Proof.
-  intros f Hin. simpl in Hin.
+  intros f Hin.
   assert (Hnd1 : NoDup (map f_id (p_feeders mg_p))) by (simpl; repeat constructor; simpl; intuition lia).
   assert (Hnd2 : NoDup (map f_token (p_feeders mg_p))) by (simpl; repeat constructor; simpl; intuition lia).
+  assert (Hco : co_ok mg_p f 1000 19 (st_mem mg_st0)) by (apply co_ok_distinct_l; assumption).
+  simpl in Hin.
   destruct Hin as [E|[E|[E|[]]]]; subst f; (split; [constructor; simpl; auto; try lia; try (right; split; [lia | vm_compute; discriminate])|]);
+    (split; [|exact Hco]);
     apply mg_inv_before_start; simpl; try lia; try reflexivity; try exact I;
     try (intros k x H; repeat (destruct H as [H|H]; [inversion H; subst; reflexivity|]); destruct H);
     try (unfold tp_nonneg; simpl; lia).
 Qed.
+
+(* a successor configuration satisfying the hypotheses of C12_no_gap_successor *)
+Definition sc_f1 : feeder := mkFeeder 1 1 20 10 1 45.
+Definition sc_f2 : feeder := mkFeeder 2 1 50 7 4 0.
+Definition sc_p : params := mkParams 3 2 3 5 100 [sc_f1; sc_f2] [(1, 8)].
+Example ex_successor : successor sc_p sc_f1 sc_f2.
+Proof.
+  assert (Hnd : NoDup (map f_id (p_feeders sc_p))) by (simpl; repeat constructor; simpl; intuition lia).
+  constructor; simpl; try lia; try reflexivity.
+  - constructor; simpl; auto; try lia. right. split; [lia | vm_compute; discriminate].
+  - constructor; simpl; auto; try lia.
+  - intros g [E|[E|[]]] _; [left | right]; symmetry; exact E.
+Qed.
+
 
 (* the full statement: every feeder of the params, every transaction *)
 Definition C12_no_gap_full : Prop := forall p bl b st,
@@ -245,7 +357,7 @@ Definition C12_no_gap_full : Prop := forall p bl b st,
 Definition ng_p : params := mkParams 3 2 3 5 100 [mkFeeder 1 1 20 10 1 0] [(1, 8)].
 Definition ng_f : feeder := mkFeeder 1 1 20 10 1 0.
 Definition ng_st0 : state := mkState (mkStore [] []) (mkMem [(0, 100); (1, 100); (2, 100)] 300 [] []) 0.
-Definition ng_msg (creator nonce : Z) (det : string) : msg := mkMsg creator 1 20 nonce [mkPS 1 [mkPI det 100 8 100]].
+Definition ng_msg (creator nonce : Z) (det : string) : msg := mkMsg creator 1 20 nonce [mkPS 1 [mkPI det 100 8 100 true]].
 Definition ng_now : Z := 200000000000.
 Definition ng_blocks : list blk :=
   [ ([], []);                                                            (* block 20: the round opens *)
@@ -295,7 +407,7 @@ Proof. vm_compute. reflexivity. Qed.
 Definition ex_p : params := mkParams 3 2 3 5 100 [mkFeeder 1 1 20 10 1 0] [(1, 8)].
 Definition ex_st0 (powers : list (Z * Z)) : state :=
   mkState (mkStore [] []) (mkMem powers (zsum (map snd powers)) [] []) 0.
-Definition ex_m (creator : Z) (price : Z) : msg := mkMsg creator 1 20 1 [mkPS 1 [mkPI "7" price 8 100]].
+Definition ex_m (creator : Z) (price : Z) : msg := mkMsg creator 1 20 1 [mkPS 1 [mkPI "7" price 8 100 true]].
 Definition ex_tx (creator price : Z) : op := OpTx 200000000000 (mkTx [ex_m creator price] 300 true true).
 
 (* 34+33 of 100: 67*3 = 201 > 200 -> final price after two reports *)
@@ -318,3 +430,7 @@ Example ex_disagreement_then_carry :
                 [OpEnd 20 []; ex_tx 0 100; ex_tx 1 101; ex_tx 2 102; OpEnd 21 []; OpEnd 22 []; OpEnd 23 []] in
   get_tp (st_store st) 1 = mkTP (Some 2) [(1, mkPtr 1 None 0 (-1))] /\ s_nonces (st_store st) = [].
 Proof. vm_compute. split; reflexivity. Qed.
+
+Example ex_upd_end : upd_end ng_p (mkParams 3 2 3 5 100 [set_end ng_f 55] [(1, 8)]) ng_f 55 30.
+Proof. constructor; simpl; try reflexivity; try lia; repeat split; try reflexivity; try lia; vm_compute; discriminate. Qed.
+
